@@ -247,7 +247,7 @@ impl Prop for C19 {
     }
     fn cases(&self, tier: Tier) -> u64 {
         match tier {
-            Tier::Quick => 1 << 14,
+            Tier::Quick => 1 << 13,
             Tier::Thorough => 1 << 19,
         }
     }
